@@ -179,3 +179,55 @@ fn c03_execution_of_every_ending_shape_returns() {
     }
     println!("CASES c03_ending_shapes {n}");
 }
+
+/// runs VM::execute on a thread; Ok if it returned within `secs`, Err(stopped_by_watchdog_afterwards) otherwise
+fn execute_returns_within(code: &[u8], permissive: bool, secs: u64) -> Result<(), bool> {
+    use std::{sync::{atomic::{AtomicBool, Ordering}, mpsc, Arc}, time::Duration};
+    use storage_layout_extractor::watchdog::FlagWatchdog;
+    let (tx, rx) = mpsc::channel();
+    let flag = Arc::new(AtomicBool::new(false));
+    let (c2, f2) = (code.to_vec(), flag.clone());
+    let _ = std::thread::spawn(move || {
+        let r = std::panic::catch_unwind(move || {
+            let Ok(is) = InstructionStream::try_from(c2.as_slice()) else { return };
+            let cfg = Config::default().with_permissive_errors(permissive);
+            let Ok(mut vm) = VM::new(is, cfg, FlagWatchdog::new(f2).polling_every(1000).in_rc()) else { return };
+            let _ = vm.execute();
+        });
+        let _ = tx.send(r.is_ok());
+    });
+    match rx.recv_timeout(Duration::from_secs(secs)) {
+        Ok(_) => Ok(()),
+        Err(_) => { flag.store(true, Ordering::Relaxed); Err(rx.recv_timeout(Duration::from_secs(10)).is_ok()) }
+    }
+}
+
+/// every instruction that takes a size / length operand, with that operand (and the others) at the boundary constants: the
+/// work done for one instruction is bounded by the configured single-operation memory limit, so execution returns
+#[test]
+fn c03_size_operands_at_the_boundaries_return() {
+    std::panic::set_hook(Box::new(|_| {}));
+    let one = ethnum::U256::ONE;
+    let bw = [ethnum::U256::new(32), ethnum::U256::new(1 << 20), ethnum::U256::new(1 << 32), ethnum::U256::new((1u128 << 64) - 1), ethnum::U256::new(1u128 << 64), ethnum::U256::new((1u128 << 64) + 64), one << 128u32, one << 255u32, ethnum::U256::MAX];
+    // (opcode, number of stack operands)
+    let ops: [(u8, usize); 17] = [(0x20, 2), (0x37, 3), (0x39, 3), (0x3c, 4), (0x3e, 3), (0xa0, 2), (0xa1, 3), (0xf0, 3), (0xf1, 7), (0xf2, 7), (0xf3, 2), (0xf4, 6), (0xf5, 4), (0xfa, 6), (0xfd, 2), (0x51, 1), (0x52, 2)];
+    let mut cases = 0;
+    let mut hung = 0;
+    for (op, n) in ops {
+        for k in 0..n {
+            for w in bw {
+                if hung >= 3 { continue; }
+                // operand k (pushed first = deepest) is the boundary word, the others are small
+                let mut code = vec![];
+                for j in 0..n { code.push(0x7f); code.extend((if j == k { w } else { ethnum::U256::new(64) }).to_be_bytes()); }
+                code.extend([op, 0x00]);
+                cases += 1;
+                if let Err(stopped) = execute_returns_within(&code, true, 40) {
+                    hung += 1;
+                    witness("C03", "limits.execution_returns", format!("opcode {op:#04x} with operand {k} (pushed first = deepest) = {w:#x}: {code:02x?}"), format!("VM::execute did not return within 40 s ({})", if stopped { "ended by the watchdog afterwards" } else { "and does not poll the watchdog either" }), "returns: one instruction's work is bounded by the single-operation memory limit".into());
+                }
+            }
+        }
+    }
+    println!("CASES c03_size_operands {cases}");
+}
